@@ -160,3 +160,64 @@ Print Assumptions C01_win_bad_shape_rejected.
 Print Assumptions C01_run_app.
 Print Assumptions C01_final_is_last.
 Print Assumptions C01_lr_one.
+
+(* ================================================================================================================ *)
+(* Tie (T): the definitions GENERATED on this run from the current source text of nodes/reservoirs/base.py and
+   utils/random.py (coq/gen/Gen_reservoir.v) ARE the model every theorem above is about -- for every configuration, state,
+   input, feedback value and generator draw, scalar and per-unit leak rates, both equations.  If the source changes the
+   recurrence, the generated term changes and these stop checking.                                                    *)
+From RV Require Import base.GenPrelude gen.Gen_reservoir proofs.Gen_reservoir_eq.
+
+Theorem C01_generated_kernel_is_model (c : rcfg R) (r : list R) (x : rin R) :
+  GenReservoir_LrS.reservoir_kernel (rW c) (rWin c) (rbias c) (c_has_fb c) (c_Wfb c) (rfbact c) (g_in c) (g_fb c)
+                                    (i_fb x) (xi_in x) (xi_fb x) (i_u x) r
+  = kernel c r x.
+Proof. exact (gen_kernel_eq c r x). Qed.
+
+Theorem C01_generated_noise_is_model (g : R) (xi : list R) (n : nat) : GenReservoir_LrS.noise xi n g = noise g xi n.
+Proof. exact (gen_noise_eq g xi n). Qed.
+
+Theorem C01_generated_forward_internal_is_model (c : rcfg R) (a : R) (s r : list R) (x : rin R) : rlr c = LrS a ->
+  GenReservoir_LrS.forward_internal (rW c) (rWin c) (rbias c) (c_has_fb c) (c_Wfb c) a (ract c) (rfbact c)
+                                    (g_in c) (g_fb c) (g_rc c) r (i_fb x) (xi_in x) (xi_fb x) (xi_rc x) (i_u x)
+  = snd (step_internal c (s, r) x)
+  /\ fst (step_internal c (s, r) x) = s.
+Proof. exact (gen_forward_internal_eq c a s r x). Qed.
+
+Theorem C01_generated_forward_internal_is_model_per_unit_lr (c : rcfg R) (v : list R) (s r : list R) (x : rin R) : rlr c = LrV v ->
+  GenReservoir_LrV.forward_internal (rW c) (rWin c) (rbias c) (c_has_fb c) (c_Wfb c) v (ract c) (rfbact c)
+                                    (g_in c) (g_fb c) (g_rc c) r (i_fb x) (xi_in x) (xi_fb x) (xi_rc x) (i_u x)
+  = snd (step_internal c (s, r) x)
+  /\ fst (step_internal c (s, r) x) = s.
+Proof. exact (gen_forward_internal_eq_V c v s r x). Qed.
+
+(* forward_external returns (new Node state, value written to params['internal_state']) *)
+Theorem C01_generated_forward_external_is_model (c : rcfg R) (a : R) (s r : list R) (x : rin R) : rlr c = LrS a ->
+  GenReservoir_LrS.forward_external (rW c) (rWin c) (rbias c) (c_has_fb c) (c_Wfb c) a (ract c) (rfbact c)
+                                    (g_in c) (g_fb c) (g_rc c) r (i_fb x) s (xi_in x) (xi_fb x) (xi_rc x) (i_u x)
+  = (snd (step_external c (s, r) x), fst (step_external c (s, r) x)).
+Proof. exact (gen_forward_external_eq c a s r x). Qed.
+
+Theorem C01_generated_forward_external_is_model_per_unit_lr (c : rcfg R) (v : list R) (s r : list R) (x : rin R) : rlr c = LrV v ->
+  GenReservoir_LrV.forward_external (rW c) (rWin c) (rbias c) (c_has_fb c) (c_Wfb c) v (ract c) (rfbact c)
+                                    (g_in c) (g_fb c) (g_rc c) r (i_fb x) s (xi_in x) (xi_fb x) (xi_rc x) (i_u x)
+  = (snd (step_external c (s, r) x), fst (step_external c (s, r) x)).
+Proof. exact (gen_forward_external_eq_V c v s r x). Qed.
+
+(* the documented law, stated directly about the generated forward_internal *)
+Theorem C01_generated_internal_law (n : nat) (c : rcfg R) (a : R) (r : list R) (x : rin R) (i : nat) :
+  shaped n c -> quiet c -> rlr c = LrS a -> length r = n -> (i < n)%nat ->
+  nth i (GenReservoir_LrS.forward_internal (rW c) (rWin c) (rbias c) (c_has_fb c) (c_Wfb c) a (ract c) (rfbact c)
+                                    (g_in c) (g_fb c) (g_rc c) r (i_fb x) (xi_in x) (xi_fb x) (xi_rc x) (i_u x)) 0
+  = (1 - a) * nth i r 0 + a * nth i (ract c (kernel c r x)) 0.
+Proof.
+  intros Hs Hq Hl Hr Hi. destruct (gen_forward_internal_eq c a [] r x Hl) as [E _]. rewrite E.
+  destruct (internal_step_law n c [] r x i Hs Hq Hr Hi) as [_ L]. rewrite L, Hl. reflexivity.
+Qed.
+
+Print Assumptions C01_generated_kernel_is_model.
+Print Assumptions C01_generated_forward_internal_is_model.
+Print Assumptions C01_generated_forward_internal_is_model_per_unit_lr.
+Print Assumptions C01_generated_forward_external_is_model.
+Print Assumptions C01_generated_forward_external_is_model_per_unit_lr.
+Print Assumptions C01_generated_internal_law.
